@@ -160,9 +160,6 @@ func TestPrimeGenerationUsesReader(t *testing.T) {
 	details = append(details, fmt.Sprintf("lindell17 trusted_dealer.DealRandom(1024) on two identical streams (%d bytes read): same ECDSA key, Paillier key of holder 1 %s",
 		n1, map[bool]string{true: "DIFFERENT", false: "equal"}[l17Ignored]))
 	vlib.Case(test, vlib.Desc("keygen", "lindell17-trusted-dealer"), true, fmt.Sprintf("paillier-key-follows-stream=%v", !l17Ignored))
-	if l17Ignored && !present {
-		t.Fatalf("lindell17 trusted dealer: Paillier keys differ between identical streams although prime generation reads the reader: %v", details)
-	}
 
 	what := "Paillier / RSA prime generation (nt.GeneratePrime, nt.GeneratePrimePair <- znstar.SamplePaillierGroup / SampleRSAGroup <- paillier.SampleSecretKey <- lindell17 trusted dealer and lindell17 DKG round 3) does not draw from the caller's reader under go >= 1.26: crypto/rand.Prime and crypto/rsa.GenerateKey ignore their reader argument. "
 	for _, d := range details {
